@@ -34,52 +34,149 @@ def _is_clock_call(ctx, f, e):
     return None
 
 
+def contradictory(fa, fb):
+    """Two sets of atomic facts that cannot hold together (syntactic: same atom with opposite polarity, or x == y with x < y)."""
+    for a in fa:
+        for b in fb:
+            if a[0] == b[0] and a[1] != b[1]:
+                return True
+            for x, y in ((a, b), (b, a)):
+                if x[0][0] == "eq" and x[1] is True and y[0][0] == "lt" and y[1] is True and set(x[0][1:]) == set(y[0][1:]):
+                    return True
+                # x <= y false (i.e. y < x) together with x < y ... not needed
+    return False
+
+
+def _guard_false_leaves_loop(ctx, f, head, n, extra):
+    """The deadline comparison at test node n is only evaluated when the conjuncts `extra` hold.  That is as good as an
+    unconditional check if, whenever one of them is false, the loop is left before another cycle starts: no definition of
+    their variables between n and the loop head, and their negation contradicts the loop condition."""
+    from ..dataflow import test_facts, vars_in
+    if head.kind != "test" or not isinstance(head.ast, ast.While):
+        return False
+    g = ctx.cfg(f)
+    df = ctx.df(f)
+    mid = g.reach_from_edge(n, "false", avoid=[head], exc=False) & set(loop_nodes(g, head))
+    for e in extra:
+        vs = vars_in(e)
+        for m in mid:
+            if m is head:
+                continue
+            for d in df.node_defs.get(m, []):
+                if d.kind != "base" and (d.var in vs or any(d.var.startswith(v + ".") or v.startswith(d.var + ".") for v in vs)):
+                    return False
+        if not contradictory(test_facts(e, False), test_facts(head.ast.test, True)):
+            return False
+    return True
+
+
+def resolve_copy(ctx, f, node, e):
+    """Follow a local name to the expression it was (uniquely) assigned from: -> (defining node, expression)."""
+    df = ctx.df(f)
+    e = unawait(e)
+    for _ in range(4):
+        if not isinstance(e, ast.Name):
+            break
+        d = df.unique_def(node, e.id)
+        if d is None or d.kind != "assign" or d.path or d.value is None:
+            break
+        node, e = d.node, unawait(d.value)
+    return node, e
+
+
+def raised_classes(ctx, f, node, exc):
+    """Class names an expression raised at node may denote: a constructor call, a name bound to one, or a call of a package
+    helper whose returns are all such expressions."""
+    if exc is None:
+        return {"<reraise>"}
+    node, e = resolve_copy(ctx, f, node, exc)
+    if isinstance(e, ast.Call):
+        cs = ctx.cg.site(e)
+        if cs is not None and cs.callees and all(not c.is_generator for c in cs.callees) and not any(isinstance(x, ast.ClassDef) for x in ()):
+            out = set()
+            for c in cs.callees:
+                if c.name == "__init__":
+                    out.add(c.cls.name)
+                    continue
+                g2 = ctx.cfg(c)
+                rets = [rn for rn in g2.live_nodes() if rn.kind == "stmt" and isinstance(rn.ast, ast.Return)]
+                if not rets:
+                    return {"?"}
+                for rn in rets:
+                    out |= raised_classes(ctx, c, rn, rn.ast.value)
+            return out
+        fn = e.func
+        return {fn.attr if isinstance(fn, ast.Attribute) else fn.id if isinstance(fn, ast.Name) else "?"}
+    if isinstance(e, ast.Attribute):
+        return {e.attr}
+    if isinstance(e, ast.Name):
+        return {e.id}
+    return {"?"}
+
+
 def deadline_tests(ctx, f, head):
-    """Deadline test nodes inside the loop `head`: -> list of (node, bound expr, start var)."""
+    """Deadline test nodes inside the loop `head`: -> list of (node, bound expr, start var, guarded-by-None-test).
+    Recognised: `[G and ...] now() - start > bound` (possibly through a temporary: `elapsed = now() - start`), start taken
+    from the same clock before the loop, true branch reaching only `raise AdbTimeoutError` (built in place or by a
+    helper).  Conjuncts G other than `bound is not None` are accepted when their failing means the loop is left."""
     g = ctx.cfg(f)
     df = ctx.df(f)
     inside = set(loop_nodes(g, head))
     out = []
     for n in inside:
-        if n.kind != "test" or n is head and False:
+        if n.kind != "test":
             continue
         conj = [n.ast.test]
         t = unawait(n.ast.test)
         if isinstance(t, ast.BoolOp) and isinstance(t.op, ast.And):
             conj = list(t.values)
         guard_none = []
+        extra = []
         cmpx = None
         for c in conj:
             c = unawait(c)
             if isinstance(c, ast.Compare) and len(c.ops) == 1 and isinstance(c.ops[0], ast.IsNot) and isinstance(c.comparators[0], ast.Constant) and c.comparators[0].value is None:
                 guard_none.append(key(c.left))
-            elif isinstance(c, ast.Compare) and len(c.ops) == 1 and isinstance(c.ops[0], (ast.Gt, ast.GtE)):
+            elif cmpx is None and isinstance(c, ast.Compare) and len(c.ops) == 1 and isinstance(c.ops[0], (ast.Gt, ast.GtE)) and _elapsed(ctx, f, n, c.left, inside) is not None:
                 cmpx = c
+            elif cmpx is None:
+                extra.append(c)       # evaluated before the comparison
             else:
-                cmpx = None
+                cmpx = None           # something after the comparison can veto the raise
                 break
         if cmpx is None:
             continue
-        left, bound = unawait(cmpx.left), cmpx.comparators[0]
-        # now - start
-        if not (isinstance(left, ast.BinOp) and isinstance(left.op, ast.Sub) and _is_clock_call(ctx, f, left.left) and isinstance(left.right, ast.Name)):
-            continue
-        start = left.right.id
-        clock = _is_clock_call(ctx, f, left.left)
-        ds = df.reaching(n, start)
-        if not ds or not all(d.kind == "assign" and not d.path and _is_clock_call(ctx, f, d.value) == clock and d.node not in inside for d in ds):
-            continue
+        bound = cmpx.comparators[0]
+        start, clock = _elapsed(ctx, f, n, cmpx.left, inside)
         if any(gk != key(bound) for gk in guard_none):
+            continue
+        if extra and not _guard_false_leaves_loop(ctx, f, head, n, extra):
             continue
         # true branch: reaches a raise of AdbTimeoutError, never the loop head nor a normal exit
         tgt = g.reach_from_edge(n, "true", exc=False)
         if head in tgt or g.exit in tgt:
             continue
         raises = [x for x in tgt if x.kind == "stmt" and isinstance(x.ast, ast.Raise)]
-        if not raises or not all(x.ast.exc is not None and "AdbTimeoutError" in src(x.ast.exc) for x in raises):
+        if not raises or not all(raised_classes(ctx, f, x, x.ast.exc) == {"AdbTimeoutError"} for x in raises):
             continue
         out.append((n, bound, start, bool(guard_none)))
     return out
+
+
+def _elapsed(ctx, f, n, left, inside):
+    """`now() - start` (directly or through a temporary) with start = now() of the same clock taken before the loop: -> (start var, clock)."""
+    df = ctx.df(f)
+    dn, left = resolve_copy(ctx, f, n, left)
+    if dn is not n and dn not in inside:
+        return None              # elapsed time computed before the loop: never advances
+    if not (isinstance(left, ast.BinOp) and isinstance(left.op, ast.Sub) and _is_clock_call(ctx, f, left.left) and isinstance(left.right, ast.Name)):
+        return None
+    start = left.right.id
+    clock = _is_clock_call(ctx, f, left.left)
+    ds = df.reaching(dn, start)
+    if not ds or not all(d.kind == "assign" and not d.path and _is_clock_call(ctx, f, d.value) == clock and d.node not in inside for d in ds):
+        return None
+    return start, clock
 
 
 def check(ctx, R):
